@@ -86,8 +86,10 @@ claim("C04", "proof",
       "changes', the converse is proved for the minimal edges on the central line of a branching cell (the edge recursion "
       "reaches every quadruple of leaves around a minimal edge; a sign change forces four ambiguous leaves and yields the "
       "explicit quad, in the mesh), with the winding decided by the inside end and crossing parity along paths of minimal "
-      "edges; minimal edges inside a face shared by two children are NOT proved, so the winding statement on adaptive octrees "
-      "stays with the oracle.  Coq theorems: (a) pruning - under sound interval evaluation (C02) a cell classified EMPTY / FILLED contains no "
+      "edges; the face recursion and the whole walk are complete too (module AdaptiveDCSep5: C04_walk3_reaches_every_quadruple, "
+      "the full C04_adaptive_sign_changes_give_triangles and C04_adaptive_mesh_separates for EVERY minimal edge between leaves of "
+      "a consistent tree; remaining hypothesis distinct3).  Vertex positions and the simplex / hybrid meshers on adaptive "
+      "grids stay with the oracle.  Coq theorems: (a) pruning - under sound interval evaluation (C02) a cell classified EMPTY / FILLED contains no "
       "zero of the field and every point of it has the classified sign, so all surface lies in AMBIGUOUS cells (also through a "
       "volume tree); (b) dual contouring on a uniform grid (the executable model of Dual<3>::walk + DCMesher::load over the "
       "run-time patch tables): the mesh is exactly the boundary of the inside lattice set - two triangles per lattice edge whose "
